@@ -156,7 +156,7 @@ def gen_script(rnd):
 
 def main():
     tier = common.tier()
-    nshards, n = (8, 12) if tier == "quick" else (32, 120)
+    nshards, n = (16, 25) if tier == "quick" else (32, 300)
     jobs = [dict(seed="%d/%s/%d" % (common.seed(), PROP, s), n=n) for s in range(nshards)]
     R = common.Run(PROP, "translation_validation", RULE)
     digests = {}
